@@ -187,26 +187,33 @@ def t3_case(case):
         c.add('post:exact-at-maximal-rank[%s]' % tag, abs(np.real(lam) - lam_max) <= 1e-7 * max(1, abs(lam_max)) and
               phase_dist(xv / np.linalg.norm(xv), v1) <= 1e-5, 'lambda %.10g vs %.10g, vector distance %.3g' % (np.real(lam), lam_max, phase_dist(xv / np.linalg.norm(xv), v1)), nontrivial=nt)
 
-    # deflation == explicitly shifted operator -----------------------------------------------------------------------
+    # deflation == explicitly shifted operator (one or several deflation tensors) -----------------------------------------
     if not gevp and N >= 3:
-        pv = V[:, -1] / np.linalg.norm(V[:, -1])
-        p = TT(pv.reshape(rd + [1] * d))
-        shift = -float(rng.uniform(2.0, 5.0)) - (w[-1] - w[0])   # pushes the dominant pair to the bottom
-        shifted = op + shift * (p @ p.transpose(conjugate=True))
-        sp_ = spec.Snap(p)
-        with Monitor(evp, A, None, [pv], shift, c) as mon:
-            ok, r1 = c.guarded('post:deflation==shifted-operator[%s]' % tag, lambda: run(g2, 2, previous=[p], shift=shift))
-        ok2, r2 = c.guarded('post:deflation==shifted-operator[%s]' % tag, lambda: run(g2, 2, operator=shifted))
+        nprev = 2 if (N >= 4 and case['k'] % 2 == 0) else 1
+        shift = -float(rng.uniform(2.0, 5.0)) - (w[-1] - w[0])   # pushes the deflated pairs to the bottom
+        pvs, ps, shifted = [], [], op
+        for q in range(nprev):
+            pv = V[:, -1 - q] / np.linalg.norm(V[:, -1 - q])
+            pt = TT(pv.reshape(rd + [1] * d))
+            if q == 1:
+                pt = pt + 0.0 * spec.rand_tt(rng, rd, [1] * d, [1] * (d + 1), kind)     # different TT ranks per deflation tensor
+            pvs.append(pv)
+            ps.append(pt)
+            shifted = shifted + shift * (pt @ pt.transpose(conjugate=True))
+        sps = [spec.Snap(p_) for p_ in ps]
+        dtag = tag + '/deflation%d' % nprev
+        with Monitor(evp, A, None, pvs, shift, c) as mon:
+            ok, r1 = c.guarded('post:deflation==shifted-operator[%s]' % dtag, lambda: run(g2, 2, previous=ps, shift=shift))
+        ok2, r2 = c.guarded('post:deflation==shifted-operator[%s]' % dtag, lambda: run(g2, 2, operator=shifted))
         if ok and ok2:
-            mon.report(tag + '/deflation')
+            mon.report(dtag)
             x1, x2 = vec(r1[1]), vec(r2[1])
-            c.add('post:deflation==shifted-operator[%s]' % tag,
+            c.add('post:deflation==shifted-operator[%s]' % dtag,
                   abs(np.real(r1[0]) - np.real(r2[0])) <= 1e-7 * max(1, abs(r2[0])) and phase_dist(x1 / np.linalg.norm(x1), x2 / np.linalg.norm(x2)) <= 1e-5,
                   'eigenvalues %.10g vs %.10g, vector distance %.3g' % (np.real(r1[0]), np.real(r2[0]), phase_dist(x1 / np.linalg.norm(x1), x2 / np.linalg.norm(x2))))
-            c.add('post:deflated-pair-is-second[%s]' % tag, abs(np.real(r1[0]) - w[-2]) <= 1e-6 * max(1, abs(w[-2])), '%.10g vs %.10g' % (np.real(r1[0]), w[-2]))
-        c.frame([sp_], [p], 'frame:previous-unchanged')
+            c.add('post:deflated-pair-is-next[%s]' % dtag, abs(np.real(r1[0]) - w[-1 - nprev]) <= 1e-6 * max(1, abs(w[-1 - nprev])), '%.10g vs %.10g' % (np.real(r1[0]), w[-1 - nprev]))
+        c.frame(sps, ps, 'frame:previous-unchanged')
 
-    # block solver ---------------------------------------------------------------------------------------------------------
     # precondition of the block solver: every micro problem has at least number_ev unknowns (all mode sizes >= 2)
     if N >= 4 and solver_eff != 'eigs' and all(x >= 2 for x in rd):
         with Monitor(evp, A, B, [], 0, c) as mon:
